@@ -284,7 +284,8 @@ def run_shard(arg):
 TYPE_ERRORS = [
     "void f1() { for (b : bool) { } }", "void f2() { for (b : chan) { } }", "void f3() { for (b : clock) { } }", "void f4() { for (b : double) { } }",
     "void f5() { for (b : int) { } }", "typedef struct { int a; } rq; void f6() { for (b : rq) { } }", "void f7(void &v) { }", "void f8(chan c) { }",
-    "typedef int vq[2]; vq f9() { }", "clock f10() { }", "chan f11() { }", "typedef struct { clock c; } rc; rc f12() { }",
+    "typedef int vq[2]; vq g9; vq f9() { return g9; }", "clock g10; clock f10() { return g10; }", "chan g11; chan f11() { return g11; }",
+    "typedef struct { clock c; } rc; rc g12; rc f12() { return g12; }", "typedef struct { int a[2]; } ra; ra g12b; ra f12b() { return g12b; }",
     "int f13() { return forall (b : clock) true; }", "int f14() { return sum (b : bool) 1; }", "int f15() { return exists (b : double) true; }",
     "int[0, 1.5] r16;", "int[true, 2] r17;", "int a18[1.5];", "int a19[-1];", "scalar[1.5] s20;", "typedef struct { void f; } r21; r21 v21;",
     "typedef struct { int a; int a; } r22;", "const int c23;", "int f24(int q) { return; }", "void f25() { return 1; }", "int f26() { int t; }",
